@@ -621,6 +621,7 @@ func runD10(t *testing.T, id, target string, hookOn bool, steps []string) {
 		}
 	}
 	lastErr := ""
+	var recent []*syncResult
 	settle := func() bool {
 		for i := 0; i < 40; i++ {
 			syncs, ok := w.round()
@@ -629,6 +630,7 @@ func runD10(t *testing.T, id, target string, hookOn bool, steps []string) {
 			}
 			for _, sr := range syncs {
 				judge(sr)
+				recent = append(recent, sr)
 				lastErr = ""
 				if sr.Err != nil {
 					lastErr = sr.Err.Error()
@@ -650,7 +652,7 @@ func runD10(t *testing.T, id, target string, hookOn bool, steps []string) {
 									left = append(left, sim.Name(o))
 								}
 							}
-							rep.Violation("C10", id, "decorator:finalization-stalled", fmt.Sprintf("the object still carries the finalizer and must be finalized (deleting=%v, selected=%v), yet nothing is queued any more; attachments left: %v", sim.IsDeleting(cur), sim.Labels(cur)["decorate"] == uid, left), map[string]interface{}{"target": target, "steps": steps})
+							rep.Violation("C10", id, "decorator:finalization-stalled", fmt.Sprintf("the object still carries the finalizer and must be finalized (deleting=%v, selected=%v), yet nothing is queued any more; attachments left: %v", sim.IsDeleting(cur), sim.Labels(cur)["decorate"] == uid, left), map[string]interface{}{"target": target, "steps": steps, "lastSyncs": lastSyncLogs(recent, 4)})
 						}
 					}
 					return true
